@@ -22,7 +22,10 @@
 (* One action per entry point of the code:                                    *)
 (*   ConnUp     _handle_openflow_ConnectionUp  (Switch created, ports synced, *)
 (*              SpanningForest._compute)                                      *)
-(*   ConnDown   _handle_openflow_ConnectionDown                               *)
+(*   Disconnect the session leaves the nexus (Connection.disconnect)          *)
+(*   ConnDown   _handle_openflow_ConnectionDown (raised after Disconnect;     *)
+(*              listeners of higher priority - discovery withdrawing the      *)
+(*              switch's links - run in between)                              *)
 (*   LinkEv     _handle_openflow_discovery_LinkEvent (add = probe seen,       *)
 (*              remove = discovery's link timeout), incl. the two refusals    *)
 (*              of Topo.get_link / LinkData (RuntimeError, AssertionError)    *)
@@ -69,13 +72,15 @@ Told(m) == [has |-> TRUE, m |-> m]
 VARIABLES conn, sports, down, swcfg, chan,          \* environment
           sws, age, cache, known, fwd, rev, tree,   \* the component
           tphase, calm, stale,                      \* clocks / deviation bookkeeping
+          dpend,                                    \* session gone, ConnectionDown not yet handled by the component
           last, hist
 evars == <<conn, sports, down, swcfg, chan>>
 cvars == <<sws, age, cache, known, fwd, rev, tree>>
-vars  == <<conn, sports, down, swcfg, chan, sws, age, cache, known, fwd, rev, tree, tphase, calm, stale, last, hist>>
-view  == <<conn, sports, down, swcfg, chan, sws, age, cache, known, fwd, rev, tree, tphase, calm, stale>>
+vars  == <<conn, sports, down, swcfg, chan, sws, age, cache, known, fwd, rev, tree, tphase, calm, stale, dpend,
+           last, hist>>
+view  == <<conn, sports, down, swcfg, chan, sws, age, cache, known, fwd, rev, tree, tphase, calm, stale, dpend>>
 \* for the edge-cover export: calm and stale only feed the properties, no action reads them
-viewE == <<conn, sports, down, swcfg, chan, sws, age, cache, known, fwd, rev, tree, tphase>>
+viewE == <<conn, sports, down, swcfg, chan, sws, age, cache, known, fwd, rev, tree, tphase, dpend>>
 
 ----------------------------------------------------------------------------
 (* links and graphs: switches are nodes, links are edges *)
@@ -150,7 +155,7 @@ Init ==
   /\ chan = [s \in Sw |-> <<>>]
   /\ sws = {} /\ age = [s \in Sw |-> <<>>] /\ cache = [s \in Sw |-> NoCache]
   /\ known = {} /\ fwd = {} /\ rev = {} /\ tree = {}
-  /\ tphase = 0 /\ calm = 0 /\ stale = {}
+  /\ tphase = 0 /\ calm = 0 /\ stale = {} /\ dpend = {}
   /\ last = NoObs /\ hist = <<>>
 
 \* the common tail of every handler that ends in SpanningForest._compute
@@ -163,30 +168,39 @@ Recompute(cn, sp, ag, K, F, R, ca, chn, who, a, args, extraStale) ==
 
 ----------------------------------------------------------------------------
 ConnUp(s, fr) ==
-  /\ tphase < P /\ s \notin conn /\ fr \in Fresh
+  /\ tphase < P /\ dpend = {} /\ s \notin conn /\ fr \in Fresh
   /\ conn' = conn \cup {s} /\ sws' = sws \cup {s}
   /\ swcfg' = IF fr THEN [swcfg EXCEPT ![s] = [p \in sports[s] |-> 0]] ELSE swcfg
-  /\ UNCHANGED <<sports, down, known, fwd, rev, tphase>>
+  /\ UNCHANGED <<sports, down, known, fwd, rev, tphase, dpend>>
   /\ calm' = 0
   /\ LET ca == IF Strict THEN [cache EXCEPT ![s] = NoCache] ELSE cache        \* deviation StaleCache
          ag == [age EXCEPT ![s] = Sync(s, sports, age)]                      \* Switch._handle_ConnectionUp
      IN Recompute(conn \cup {s}, sports, ag, known, fwd, rev, ca, chan, sws \cup {s},
                   "ConnUp", [s |-> s, fresh |-> fr], IF ca[s].has THEN {s} ELSE {})
 
-ConnDown(s) ==
-  /\ tphase < P /\ s \in conn
-  /\ conn' = conn \ {s}
-  /\ UNCHANGED <<sports, down, swcfg, sws, known, fwd, rev, tphase>>
+\* Connection.disconnect(): the session leaves the nexus (what was in flight is lost) BEFORE ConnectionDown is
+\* raised; listeners with a higher priority than the component (discovery, which withdraws the switch's links
+\* with LinkEvents) run in between.  Only LinkEv can happen while dpend # {}.
+Disconnect(s) ==
+  /\ tphase < P /\ dpend = {} /\ s \in conn
+  /\ conn' = conn \ {s} /\ dpend' = {s}
+  /\ chan' = [chan EXCEPT ![s] = <<>>]
+  /\ UNCHANGED <<sports, down, swcfg, cvars, tphase, stale>>
   /\ calm' = 0
-  \* what was in flight is lost; Switch._handle_ConnectionDown only touches Port.up
-  /\ Recompute(conn \ {s}, sports, age, known, fwd, rev, cache, [chan EXCEPT ![s] = <<>>], sws,
-               "ConnDown", [s |-> s], {})
+  /\ Log("Disconnect", [s |-> s], Exp({}, tree, ""))
+\* _handle_openflow_ConnectionDown: Switch._handle_ConnectionDown only touches Port.up; then SpanningForest._compute
+ConnDown(s) ==
+  /\ s \in dpend
+  /\ dpend' = {}
+  /\ UNCHANGED <<conn, sports, down, swcfg, sws, known, fwd, rev, tphase>>
+  /\ calm' = 0
+  /\ Recompute(conn, sports, age, known, fwd, rev, cache, chan, sws, "ConnDown", [s |-> s], {})
 
 \* dir = "uv": the event names the link as <<s1,p1,s2,p2>> (its .uni form); "vu": the flipped link
 Refused(l) == l \notin known /\ (SelfLoop(l) \/ \E e \in EndsOf(l) : LinkAt(e[1], e[2], known) # {})
+\* (a LinkEvent may also fall on the timer instant before the timer, and between Disconnect and ConnDown)
 LinkEv(add, l, dir) ==
-  /\ tphase < P
-  /\ UNCHANGED <<conn, sports, down, swcfg, sws, tphase>>
+  /\ UNCHANGED <<conn, sports, down, swcfg, sws, tphase, dpend>>
   /\ calm' = 0
   /\ LET args == [add |-> add, l |-> l, dir |-> dir] IN
      IF Refused(l)
@@ -207,7 +221,7 @@ LinkEv(add, l, dir) ==
 Ext(f, p, v) == [q \in DOMAIN f \cup {p} |-> IF q = p THEN v ELSE f[q]]
 Cut(f, p)    == [q \in DOMAIN f \ {p} |-> f[q]]
 PortEv(s, p, k) ==
-  /\ tphase < P /\ k \in PortOps /\ <<s, p>> \in OpPorts
+  /\ tphase < P /\ dpend = {} /\ k \in PortOps /\ <<s, p>> \in OpPorts
   /\ CASE k = "add"  -> p \notin sports[s] /\ (s \in conn => p \notin DOMAIN cache[s].m)
        [] k = "del"  -> p \in sports[s]
        [] k = "down" -> p \in sports[s] \ down[s]
@@ -215,7 +229,7 @@ PortEv(s, p, k) ==
   /\ sports' = [sports EXCEPT ![s] = IF k = "add" THEN @ \cup {p} ELSE IF k = "del" THEN @ \ {p} ELSE @]
   /\ down'   = [down EXCEPT ![s] = IF k = "down" THEN @ \cup {p} ELSE IF k \in {"up", "del"} THEN @ \ {p} ELSE @]
   /\ swcfg'  = [swcfg EXCEPT ![s] = IF k = "add" THEN Ext(@, p, 0) ELSE IF k = "del" THEN Cut(@, p) ELSE @]
-  /\ UNCHANGED <<conn, sws, tphase>>
+  /\ UNCHANGED <<conn, sws, tphase, dpend>>
   /\ calm' = 0
   /\ LET args == [s |-> s, p |-> p, k |-> k] IN
      IF s \notin conn
@@ -238,9 +252,9 @@ PortEv(s, p, k) ==
 \* the periodic timer: every Switch syncs (a Switch without connection forgets its ports) and computes;
 \* the tree is not recomputed
 Tick ==
-  /\ tphase = P
+  /\ tphase = P /\ dpend = {}
   /\ tphase' = 0
-  /\ UNCHANGED <<conn, sports, down, swcfg, sws, known, fwd, rev, tree, calm>>
+  /\ UNCHANGED <<conn, sports, down, swcfg, sws, known, fwd, rev, tree, calm, dpend>>
   /\ LET ag == [s \in Sw |-> IF s \in sws /\ s \notin conn THEN <<>> ELSE age[s]]
          r  == React(conn, sports, ag, known, tree, cache, chan, sws)
      IN /\ age' = r.age /\ cache' = r.cache /\ chan' = r.chan /\ stale' = stale \ r.snd
@@ -250,21 +264,22 @@ Apply(cfg, b) == [p \in DOMAIN cfg |-> IF p \in DOMAIN b THEN b[p] ELSE cfg[p]]
 RECURSIVE ApplyAll(_, _)
 ApplyAll(cfg, bs) == IF bs = <<>> THEN cfg ELSE ApplyAll(Apply(cfg, Head(bs)), Tail(bs))
 Deliver(s) ==
-  /\ tphase < P /\ s \in conn /\ chan[s] # <<>>
+  /\ tphase < P /\ dpend = {} /\ s \in conn /\ chan[s] # <<>>
   /\ swcfg' = [swcfg EXCEPT ![s] = ApplyAll(@, chan[s])]
   /\ chan' = [chan EXCEPT ![s] = <<>>]
-  /\ UNCHANGED <<conn, sports, down, cvars, tphase, calm, stale>>
+  /\ UNCHANGED <<conn, sports, down, cvars, tphase, calm, stale, dpend>>
   /\ Log("Deliver", [s |-> s], [cfg |-> Pairs(ApplyAll(swcfg[s], chan[s]))])
 
 Advance ==
-  /\ tphase < P
+  /\ tphase < P /\ dpend = {}
   /\ tphase' = tphase + 1
   /\ calm' = Lesser(calm + 1, W + P)
   /\ age' = [s \in Sw |-> [p \in DOMAIN age[s] |-> Lesser(age[s][p] + 1, W)]]
-  /\ UNCHANGED <<evars, sws, cache, known, fwd, rev, tree, stale>>
+  /\ UNCHANGED <<evars, sws, cache, known, fwd, rev, tree, stale, dpend>>
   /\ Log("Advance", [x |-> 0], [tick |-> (tphase + 1 = P)])
 
 Next == \/ \E s \in Sw, fr \in BOOLEAN : ConnUp(s, fr)
+        \/ \E s \in Sw : Disconnect(s)
         \/ \E s \in Sw : ConnDown(s)
         \/ \E add \in BOOLEAN, l \in Links, dir \in {"uv", "vu"} : LinkEv(add, l, dir)
         \/ \E s \in Sw, p \in Ports, k \in {"add", "del", "down", "up"} : PortEv(s, p, k)
@@ -287,6 +302,7 @@ TypeOK ==
                    /\ (s \notin sws => ~cache[s].has /\ age[s] = <<>>)
   /\ tree \subseteq known /\ fwd \subseteq known /\ rev \subseteq known /\ known \subseteq Links
   /\ tphase \in 0..P /\ calm \in 0..(W + P) /\ stale \subseteq Sw
+  /\ dpend \subseteq sws \ conn /\ Cardinality(dpend) <= 1
   \* no port belongs to two links, no link has both ends on one switch
   /\ \A l \in known : ~SelfLoop(l) /\ \A e \in EndsOf(l) : LinkAt(e[1], e[2], known) = {l}
 
@@ -337,7 +353,7 @@ ExactBatches ==
             /\ Len(chan'[s]) = Len(chan[s]) + 1
             /\ cache'[s] = Told(chan'[s][Len(chan'[s])])
             /\ (cache[s] # cache'[s] \/ (Strict /\ s \notin conn))
-       /\ (cache'[s] # cache[s] /\ cache'[s].has) => Len(chan'[s]) > Len(chan[s]) \/ (s \in conn /\ s \notin conn')
+       /\ (cache'[s] # cache[s]) => Len(chan'[s]) = Len(chan[s]) + 1
      ]_vars
 
 \* ---- export for the replay harness
